@@ -1,6 +1,7 @@
 package main
 
 import (
+	"crypto/sha256"
 	"math/rand"
 	"time"
 
@@ -230,8 +231,30 @@ func cmdC07Reader(o opts) {
 		pacedData = append(append(append(append([]byte{}, newest...), alpha[0]...), alpha[3]...), newest...)
 		pacedRes = runStream(pacedData, -1, "eof", nil, false, streamCfg{key: key, pauseAt: len(newest), pause: 10600 * time.Millisecond, bufSize: 512})
 	}()
+	// a long run of correctly signed frames that are all too old, with strictly growing timestamps 1, 2, 3, ... (a recorded
+	// session replayed later): every one of them is refused, however many there are; then a current frame is accepted.
+	// The frames are signed by the harness (crypto/sha256); the monitor verifies every signature with its own SHA-256.
+	nOld := 300
+	if thorough {
+		nOld = 1200
+	}
+	long := append([]byte{}, alpha[len(alpha)-4]...)
+	for i := 1; i <= nOld; i++ {
+		j := FrameJ{V: 2, IFlag: 1, Seq: i % 256, Sys: 4, Comp: 190, ID: 30003, Payload: B{byte(i), byte(i >> 8), 7}, Ck: 4660, Link: 51,
+			Ts: le(uint64(i), 6), Sig: B{0, 0, 0, 0, 0, 0}}
+		b := frameBytes(j)
+		h := sha256.New()
+		h.Write(vecs[0].Key)
+		h.Write(b[:len(b)-6])
+		copy(b[len(b)-6:], h.Sum(nil)[:6])
+		long = append(long, b...)
+	}
+	long = append(long, alpha[len(alpha)-4]...)
+	longRes := runStream(long, -1, "eof", []int{977}, false, streamCfg{key: key, bufSize: 512})
 	defer func() {
 		<-pacedDone
+		rec.Put(M{"e": "STREAM", "g": 1<<30 + 1, "in": B(long), "errat": -1, "errkind": "eof", "sched": []int{977}, "with_data": false,
+			"dl": []int{}, "key": vecs[0].Key, "results": longRes, "clean": false, "tag": "win_long_run_of_old_frames", "complete": true, "buf": 512})
 		rec.Put(M{"e": "STREAM", "g": 1 << 30, "in": B(pacedData), "errat": -1, "errkind": "eof", "sched": []int{}, "with_data": false,
 			"dl": []int{}, "key": vecs[0].Key, "results": pacedRes, "clean": false, "tag": "win_paced", "complete": true, "buf": 512})
 		rec.Close()
